@@ -248,7 +248,7 @@ CLASS_PRIORITY = ["first-op-jump", "has-call", "backward-branch", "ctx-before-sp
 def classify(r: dict[str, Any]) -> str | None:
     if r.get("status") == "timeout":
         w = r.get("where") or ""
-        if "decompiler/write_handlers" in w or "graph_building" in w or "ssb_decompiler" in w:
+        if "decompiler/write_handlers" in w or "graph_building" in w or "ssb_decompiler" in w or "ssb_converting/decompiler" in w:
             return "C06-decompiler-nontermination"
         return None
     for c in CLASS_PRIORITY:
